@@ -274,6 +274,13 @@ class BaseDiscretizer(BaseEstimator, TransformerMixin):
 
         return X
 
+    def _check_not_fitted(self) -> None:
+        """Refuses to fit anew an already fitted discretizer (to be called before anything is modified)"""
+        assert not self.is_fitted, (
+            " - [Discretizer] This Discretizer has already been fitted. "
+            "Fitting it anew could break established orders. Please initialize a new one."
+        )
+
     def _prepare_data(self, X: DataFrame, y: Series = None) -> DataFrame:
         """Validates format and content of X and y.
 
